@@ -238,6 +238,31 @@ def probe_slots(plan, ref_lines):
     return []
 
 
+def nul_name_probe(chk, w2c2):
+    """Separately keyed probe (Appendix A): export names containing a NUL byte (valid UTF-8, valid module). Documented symbol:
+    <module>_<name with the byte escaped as X00>. Kept apart from the main workload so that it can neither mask nor be masked."""
+    m = Module()
+    m.add_func([], [I32], [], [('i32.const', 41)], export='a\x00b')
+    m.add_func([], [I32], [], [('i32.const', 42)], export='a\x00c')
+    m.add_func([], [I32], [], [('i32.const', 43)], export='plain')
+    b = m.encode()
+    plan = e2e.Plan(m)
+    script = 'I 0\n' + ''.join('c 0 %d\n' % plan.fk(n) for n in ('a\x00b', 'a\x00c', 'plain'))
+    d = env.subdir('c06-nul')
+    st, ref, _ = e2e.run_ref(b, plan, script, d)
+    if st != 'ok':
+        chk.log('note: reference rejected the NUL-name probe module (%s); probe skipped' % str(ref)[:100])
+        return
+    cst, out, _ = e2e.build_and_run(w2c2, b, plan, script, os.path.join(d, 'c'), cc='gcc', cflags=['-O1'])
+    chk.ev(3)
+    chk.distinct(('nul-name-probe',))
+    files = {'module.wasm': b, 'script.txt': script}
+    if cst != 'ok':
+        chk.violation('C06:symbol:nul-in-export-name', 'exports named "a\\0b" and "a\\0c" are not reachable under the documented symbols m_aX00b / m_aX00c (stage %s): %s' % (cst, str(out)[-600:]), files)
+    elif out != ref:
+        chk.violation('C06:symbol:nul-in-export-name', 'exports named "a\\0b" / "a\\0c": compiled %s vs reference %s' % (out[:4], ref[:4]), files)
+
+
 def main(chk):
     quick = chk.tier == 'quick'
     w2c2 = env.build_translator('plain')
@@ -311,6 +336,7 @@ def main(chk):
                     dict(files, reference_out='\n'.join(ref), compiled_out='\n'.join(out)))
         if k < 2:
             chk.sample({'shape': shape, 'lines': ref[:5]})
+    nul_name_probe(chk, w2c2)
     chk.observe('shapes', nshapes, 'set')
     chk.observe('generator_rejected', rejected, 'set')
     if rejected * 100 > nshapes:
